@@ -2,7 +2,7 @@
 from __future__ import annotations
 from engine.registry import Registry
 from engine import sortmodel, polymodel
-from contracts import option, sorting, align, compare, order_lemmas, leading, dispatch, construct, dispatchfn, baseclass, derivative, division
+from contracts import option, sorting, align, compare, order_lemmas, leading, dispatch, construct, dispatchfn, baseclass, derivative, division, statics
 
 _CONTRACT_MODULES = [option, sorting, align, compare, leading, dispatch, construct, dispatchfn, baseclass, derivative, division]
 
@@ -105,7 +105,7 @@ PROPS = {
                 "parameter. Here the construct contracts are re-posed (results well-formed, values kept, no failure under any "
                 "setting); the operation catalogue under random option settings is a bounded run-time check with the default-options "
                 "run as oracle.", trusted_base=COMMON_TRUSTED),
-    "C17": dict(level="other", contracts=["numpoly.align_shape", "numpoly.align_exponents", "numpoly.greater", "numpoly.equal",
+    "C17": dict(level="other", statics=[statics.module_state_obligations], contracts=["numpoly.align_shape", "numpoly.align_exponents", "numpoly.greater", "numpoly.equal",
                                           "numpoly.not_equal", "numpoly.lead_coefficient", "numpoly.lead_exponent"],
                 explanation="Frame obligations: at every write statement of a function under contract the executor poses "
                 "'target region is fresh or a declared output', with regions tracked through views (.values columns, ravel). "
@@ -266,6 +266,7 @@ PROPS = {
     "C18": dict(
         level="other",
         contracts=["numpoly.glexsort"],
+        statics=[statics.module_state_obligations],
         trusted_base=COMMON_TRUSTED + ["numpy.lexsort / numpy.argsort(kind='stable') / fancy indexing axioms (engine/sortmodel.py)",
                                        "order axioms for lexle/meq/mrev (conformance-tested against conc/model.col_key)"],
         assumptions=["A3: numpy axioms (lexsort stable, last key primary; argsort stable only with kind='stable')"],
